@@ -6,8 +6,11 @@ post-passes (Model/Jacobi.lean), theorems in Props/C12.lean, tied to the real co
 lean/Driver/SHRT.lean = the models at Float, incl. the whole jacobiSVD / jacobiEigenSolver as a driver-level loop).
 T-route: the SHRT wrappers regenerated from ImathMatrixAlgo.h (module Gen/C12.lean; the inner function is an opaque call of the
 hand model), theorems in Props/C12.lean and — full-strength recomposition of the 2-D sansScaling/removeScaling —
-Props/C12Recompose.lean (held back by a genuine defect until /repo commit ec5bcdd).  Residue (MEASURED, partial): convergence / accuracy of jacobiSVD, jacobiEigenSolver,
-min/maxEigenVector, procrustes recovery and local optimality (harness/corr/c12_residue.cpp)."""
+Props/C12Recompose.lean (held back by a genuine defect until /repo commit ec5bcdd); the rOrder / Euler<T>& overloads of the 3-D
+extractSHRT for all 24 orders and computeRSMatrix with small trees from a second translation unit (harness/sym/sym_c12e.cpp, Gen/C12E.lean,
+theorems in Props/C12Euler.lean; the Euler<T>& overload was a genuine defect until /repo commit 5493f9d).
+Residue (MEASURED, partial): convergence / accuracy of jacobiSVD, jacobiEigenSolver, min/maxEigenVector, accuracy of the SHRT family on
+floats, procrustes recovery (incl. far-from-origin clouds) and local optimality (harness/corr/c12_residue.cpp)."""
 import os, re, collections
 import lib, troute
 
@@ -34,7 +37,15 @@ REQUIRED = [
     "twoSidedJacobiRotation_invariant3", "twoSidedJacobiRotation_invariant4", "jacobiSVD_run_invariant3", "jacobiSVD_run_invariant4",
     "jacobiSVD_from_identity3", "jacobiSVD_from_identity4", "twoSidedJacobiRotation_computed_parameters",
     "twoSidedJacobiRotation_tol0_invariant", "jacobiSVD_sweeps_tol0_invariant3", "jacobiSVD_sweeps_tol0_invariant4", "jacobiRotation_invariant", "jacobiRotation_parameters", "jacobiSVD_post3", "jacobiSVD_post4_partial",
-    "jacobiSVD_forcePositiveDeterminant", "maxEigenVector_index3", "minEigenVector_index3", "trigSpec_real"]
+    "jacobiSVD_forcePositiveDeterminant", "maxEigenVector_index3", "minEigenVector_index3", "trigSpec_real",
+    # strengthening round: success iff non-singular (both directions), unconditional 2-D recomposition, eigen-solver computed parameters
+    # + induction, 4x4 order, determinants after forcePositiveDeterminant, 4x4 index selection
+    "M33_extractAndRemoveScalingAndShear_succeeds_iff", "M44_extractAndRemoveScalingAndShear_succeeds_iff",
+    "extractAndRemoveScalingAndShear_none_iff", "nonvacuity_succeeds", "M33_extractSHRT_total",
+    "jacobiRotation_computed_parameters", "jacobiRotation_tol0", "jacobiEigenSolver_sweeps_tol0_invariant3",
+    "jacobiEigenSolver_sweeps_tol0_invariant4", "jacobiRotation_Z_tracks_diagonal", "nonvacuity_eigAngles",
+    "jacobiSVD_post4", "jacobiSVD_forcePositiveDeterminant_det", "jacobiSVD_forcePositiveDeterminant_sign",
+    "maxEigenVector_index4", "minEigenVector_index4"]
 REQUIRED_FULL = ["M33_sansScaling_recompose", "M33_removeScaling_recompose", "M33_sansScaling_witness", "M33_removeScaling_witness"]
 FULL_KEYS = ["M33_sansScaling_recompose", "M33_removeScaling_recompose"]
 # 3-D recomposition at full strength: the Euler round trip setEulerAngles (extractEulerXYZ R) = R for EVERY rotation matrix
@@ -53,7 +64,8 @@ REQUIRED_LINK = ["extractEulerXYZ_unit", "extractEulerXYZ_copies_agree", "setEul
                  "M44_extractSHRT_recompose", "M44_sansScaling_recompose", "M44_removeScaling_recompose",
                  "sqrtSpec_real", "eulerTrigSpec_real", "rotH3_extractEulerXYZ_real", "M44_extractSHRT_recompose_real",
                  "M44_sansScaling_recompose_real", "eulerRoundTrip_principal_of_C11", "rotation_is_setEulerAngles",
-                 "ear44_W", "extractSHRT_W"]
+                 "ear44_W", "extractSHRT_W", "M44_extractSHRT_total", "M44_sansScaling_total",
+                 "len3_eq_one", "transpose_eq_adjugate", "len3_of_sq"]
 
 # witness of the (repaired, /repo ec5bcdd) 2-D sansScaling/removeScaling defect: rotation by the 3-4-5 angle (cos 4/5, sin 3/5), translation (3, 4)
 W345 = ["0.8", "0.6", "0", "-0.6", "0.8", "0", "3", "4", "1"]
@@ -330,8 +342,11 @@ def wrapper_search(chk, sym_binary, name):
 def generic_search(chk, state, name):
     """a broken theorem about a hand model: look for a model/real-code difference (the tie), else nothing"""
     first = state.get("corr_first") or {}
-    for k in ("ear33", "ear44", "jstep3", "jstep4"):
-        if k in first and (("M33" in name and k == "ear33") or ("M44" in name and k == "ear44") or ("Jacobi" in name and k.startswith("jstep"))):
+    eig = "jacobiRotation" in name or "Eigen" in name
+    for k in ("ear33", "ear44", "jstep3", "jstep4", "estep3", "estep4", "idx"):
+        if k in first and (("M33" in name and k == "ear33") or ("M44" in name and k == "ear44") or
+                           ("acobi" in name and not eig and k.startswith("jstep")) or (eig and k.startswith("estep")) or
+                           ("EigenVector_index" in name and k == "idx")):
             return dict(first[k], key="theorem:" + name)
     return wrapper_search(chk, state.get("sym"), name)
 
@@ -343,27 +358,41 @@ def run(chk):
     chk.trusted = ["Lean 4.33 kernel; axioms propext/Classical.choice/Quot.sound at most",
                    "Mathlib: Matrix.mul/det/transpose/diagonal, Complex.arg, Real.sqrt/sin/cos (only in the non-vacuity examples)",
                    "translator harness/sym (wrappers), validated each run: bitwise TV at float and double + Lean-side TV at Rat",
-                   "hand models Model/SHRT.lean, Model/Jacobi.lean tied to ImathMatrixAlgo.h/.cpp by bit-for-bit correspondence at double "
-                   "(harness/corr/c12_corr.cpp vs lean/Driver/SHRT.lean); Lean Float = IEEE binary64 with the machine's sqrt",
+                   "hand models Model/SHRT.lean, Model/Jacobi.lean tied to ImathMatrixAlgo.h/.cpp by bit-for-bit correspondence at double AND float "
+                   "(harness/corr/c12_corr.cpp, -DC12_FLOAT, vs lean/Driver/SHRT.lean generic in the element type); Lean Float / Float32 = IEEE "
+                   "binary64 / binary32 with the machine's sqrt",
+                   "second translation unit harness/sym/sym_c12e.cpp (rOrder / Euler<T>& overloads of extractSHRT, computeRSMatrix): every callee is "
+                   "an opaque call of a definition regenerated by the same run (Gen/C12.lean) or of the hand model; the specialised re-ordering "
+                   "constructor aborts unless its source order is XYZ; TV evaluates the real callees",
+                   "C11's extracted Euler definitions (Gen/C11Euler.lean: toMatrix33/44, toXYZVector, XYZ-layout constructor, re-ordering "
+                   "constructor) and theorems, as regenerated by C11's own check",
                    "long double reference arithmetic of the residue harness", "g++ -O1 -ffp-contract=off and the CPU"]
     chk.assumptions = ["theorems are about exact arithmetic over an ordered field; sqrt/sin/cos/atan2 are parameters with explicit hypotheses "
                        "(SqrtSpec, TrigSpec), shown satisfiable by the real functions",
                        "one Jacobi rotation is proved to be an orthogonal similarity GIVEN parameters that are unit pairs and diagonalise "
-                       "the 2x2 block, and the parameters the SVD code computes with tolerance 0 are proved to be such; the effect of a "
-                       "positive tolerance, rounding, convergence of the sweeps, accuracy, the order of the four singular values of the "
-                       "4x4 version and procrustes optimality are MEASURED (partial)",
+                       "the 2x2 block, and the parameters the SVD code AND the eigen solver compute with tolerance 0 are proved to be such; the "
+                       "effect of a positive tolerance, rounding, convergence of the sweeps, accuracy and procrustes (no model) are MEASURED (partial)",
+                       "success of the SHRT extraction: with 1 < max it returns true exactly on non-singular linear parts (exact arithmetic); on "
+                       "floats the overflow guards can reject nearly singular input, which is what the property allows",
+                       "the rOrder / Euler<T>& overloads of extractSHRT recompose through toMatrix44: FULL for XYZ; for the other 23 orders the Euler "
+                       "round trip toMatrix33 (extract R) = R of that order is a hypothesis (proved over the reals away from the order's gimbal lock)",
                        "3-D extractSHRT/sansScaling/removeScaling recomposition: FULL (Props/C12Link.lean proves the Euler round trip "
                        "setEulerAngles (extractEulerXYZ R) = R for every rotation matrix, gimbal lock included, over any ordered field with "
                        "sqrt/sin/cos/atan2 satisfying SqrtSpec/EulerTrigSpec, which Real.sqrt/sin/cos and atan2 y x = arg (x+iy) do)",
-                       "computeRSMatrix: tail algebra and degenerate-A arm proved; factor selection checked bitwise on the real code"]
+                       "computeRSMatrix: factor selection for all four flag pairs and both degenerate arms proved on the small-tree extraction "
+                       "(sym_c12e.cpp); the 73-path extraction of sym_c12.cpp is kept (tail algebra, degenerate-A arm) and the selection is also "
+                       "checked bitwise on the real code"]
     chk.rule = ("correspondence: affine matrices S*H*R*T with graded conditioning 10^-12..10^12, negative scales/reflections, zero / dependent "
                 "rows (guards), tiny rows (lengthTiny, denormals), integer and non-affine matrices; Jacobi: random / integer / symmetric / "
                 "diagonal / nearly diagonal / trace-free blocks x 4 tolerances; whole solvers incl. rank-deficient and repeated values, plus "
                 "DETERMINISTIC structured sparse matrices in every tier (harness/corr/c12_structured.h: every single off-diagonal position, "
                 "single row / column, identity + last row / column (translations), scale + translation, block-diagonal, triangular, "
                 "permutation x diagonal, symmetric versions for the eigen solver, magnitudes 1 / 1e-3 / 1e3), in both harnesses. "
+                "the same generators at float (exponent ranges scaled) against the models at Float32. "
                 "residue: graded conditioning, repeated, rank-deficient, diagonal, reflection, symmetric, zero, scaled x {3,4} x {float,double} "
-                "x force; point sets general/collinear/coplanar/single/pair/duplicates x weighted x scale x exact/noisy.  non-trivial = "
+                "x force; SHRT family: S*H*R*T with scales graded over 10^+-12 / 10^+-5, reflections, zero shear, unit, x {3-D, 2-D} x {float,double} "
+                "x 11 Euler orders for the two other extractSHRT overloads + a fixed witness (XYZ angles .3,.5,-.7); "
+                "point sets general/collinear/coplanar/single/pair/duplicates/far-cloud/far-lattice x weighted x scale x exact/noisy.  non-trivial = "
                 "decompositions that succeed, rotations that change the matrix, whole-solver runs")
     bins = troute.build_extractors(chk, [dict(name="sym_leaf", source="sym/sym_leaf.cpp"), dict(name="sym_c12", source="sym/sym_c12.cpp"),
                                          dict(name="sym_c12e", source="sym/sym_c12e.cpp")])
